@@ -29,6 +29,9 @@ AdoptT(t) == ks' = Ev.post /\ tcount' = t
 TInitState ==
   /\ IsEvent("init_state")
   /\ Chk("fresh_state_is_da_init", Cl(Ev.post, DAInit(R(Ev.post))))
+  \* a step size given to the constructor is the one the kernel starts with, in every chain
+  /\ Chk("initial_step_size_is_the_configured_one",
+         "eps0" \notin DOMAIN Hdr \/ FClose(Ev.post[1], Hdr.eps0, "1e-6", "0.0"))
   /\ Adopt /\ Step
 
 TStart ==
